@@ -39,7 +39,7 @@ var allSigs = append(append([]string{}, rsaSigs...), ecSigs...)
 var kuFlags = []string{"digitalSignature", "nonRepudiation", "keyEncipherment", "dataEncipherment", "keyAgreement", "keyCertSign", "crlSign"}
 var ekuNames = []string{"serverAuth", "clientAuth", "codeSigning", "emailProtection", "timeStamping", "OCSPSigning"}
 var attrKeys = []string{"CN", "O", "OU", "C", "L", "ST", "STREET", "POSTALCODE", "SERIALNUMBER", "1.2.3.4", "2.5.4.99", "0.9.2342.19200300.100.1.25"}
-var attrVals = []string{"x", "Smith\\, John", "a\\,b", "Müller\\,  Söhne GmbH", "Acme Ltd.", "Grüße", "日本語", "O'Neil (x)", "a_b@c", "A*B", "A&B", "with  two spaces", "semi;colon", "plus+slash/", "emoji 😀", "q?:.-", "1234",
+var attrVals = []string{"x", " ", "Smith\\, John", "a\\,b", "Müller\\,  Söhne GmbH", "Acme Ltd.", "Grüße", "日本語", "O'Neil (x)", "a_b@c", "A*B", "A&B", "with  two spaces", "semi;colon", "plus+slash/", "emoji 😀", "q?:.-", "1234",
 	// RFC 4514 hex form: a PrintableString TLV is taken as that string, anything else is carried as octets (not spliced in)
 	"#130568656c6c6f", "#0c0568656c6c6f", "#4D7943657274", "#0c810568656c6c6f", "#0c0568656c6c6f00", "#3003020101", "#04023031", "#ff"}
 
